@@ -20,7 +20,8 @@ func TestProp(t *testing.T) {
 	)
 	r.RequireLabel("conn-shared-by>=2", "cancel-while-another-subscribe-of-same-tuple-in-flight",
 		"terminal-for-one-then-traffic-for-another-on-same-conn", "cancel-of-one-then-traffic-for-another-on-same-conn",
-		"twin:compared", "sse", "ws:graphql-ws", "ws:graphql-transport-ws", "drop:hit-established-subscription", "idle>0",
+		"twin:compared", "sse", "ws:graphql-ws", "ws:graphql-transport-ws", "drop:hit-established-subscription", "idle>0", "ws-tuples-differ-only-in-a-later-header-value",
+		"own-deadline-passed-during-subscribe-while-another-same-tuple-subscribe-in-flight",
 		"ping:subscription-on-silent-connection", "ping:subscription-on-healthy-connection-with-traffic")
 	// A failing liveness clause costs watch+2*grace per attempt; keep shrinking from multiplying that.
 	_ = flag.Set("rapid.shrinktime", "8s")
@@ -31,9 +32,14 @@ func TestProp(t *testing.T) {
 		// the -race shards of the thorough tier repeat the search at about a tenth of the speed
 		sp.Thorough, bp.Thorough, pp.Thorough = sp.Thorough/8, bp.Thorough/8, pp.Thorough/4
 	}
+	// once a time-based violation is established the remaining parts could only add inconclusive executions
 	sp.Run(r)
-	bp.Run(r)
-	pp.Run(r)
+	if !established.Load() {
+		bp.Run(r)
+	}
+	if !established.Load() {
+		pp.Run(r)
+	}
 }
 
 func TestReplay(t *testing.T) { pbt.StdReplay(t, "C18", dispatch()) }
